@@ -13,7 +13,8 @@ Record it_glue := { it_guard : gexp;              (* use_strong_form: raise Valu
                     it_strong_op : tm; it_strong_rhs : tm;
                     it_weak_op : tm; it_weak_rhs_dual : spk;
                     it_space : spk; it_tol_kw : string;
-                    it_blocked_strong_rhs : string; it_blocked_weak_rhs : string; it_blocked_result : string }.
+                    it_blocked_strong_rhs : string; it_blocked_weak_rhs : string;
+                    it_blocked_result_strong : string; it_blocked_result_weak : string }.   (* attribute of A whose spaces cut the solution *)
 Inductive ictm := IX | IRhs | IOpX | ISub (a b : ictm).
 Record ic_glue := { ic_incr : nat; ic_cg_res : ictm; ic_other_res : ictm; ic_norm : bool; ic_else_pure : bool }.
 
